@@ -119,6 +119,93 @@ def gen_wig_input(rng, nchrom=None, value_mode="int", maxn=14, sorted_names=True
     return names, sizes, data, tags
 
 
+def halfway_decimal(rng):
+    """a decimal text within 10^-30 … 10^-60 (relative) of the midpoint between two adjacent positive f32 values, and the bits of the
+    f32 nearest to it: a parser that goes through f64 first rounds twice and lands on the other neighbour"""
+    import struct
+    from decimal import Decimal, getcontext
+    getcontext().prec = 120                 # the midpoint and the offset must be exact
+    while True:
+        b = rng.below(1 << 31)
+        if 1 <= ((b >> 23) & 0xFF) <= 0xFD:
+            break
+    x = struct.unpack(">f", struct.pack(">I", b))[0]
+    y = struct.unpack(">f", struct.pack(">I", b + 1))[0]
+    mid = (Decimal(x) + Decimal(y)) / 2
+    eps = Decimal(10) ** (mid.adjusted() - rng.choice([30, 45, 60]))
+    up = rng.chance(1, 2)
+    dec = mid + eps if up else mid - eps
+    return (b + 1 if up else b), format(dec, "f")
+
+
+def gen_genome_scale(rng, bed=False, value_mode="int", nitems=None):
+    """genome-scale coordinates: chromosomes of up to 2^32 - 1 bases, positions far above 2^24 (where f32 stops being exact
+    for integers), values/entries longer than 2^24 and 2^25 bases with odd lengths, and 20–100 widely spaced items (a data
+    section that hardly compresses). Returns names, sizes, data, tags like gen_wig_input / gen_bed_input."""
+    names = pick_chroms(rng, rng.choice([1, 2, 3]))
+    sizes, data = {}, {}
+    for nm in names:
+        n = nitems or rng.choice([3, 8, 30, 60, 100])
+        pos = rng.choice([0, 5, rng.below(10 ** 7), (1 << 24) - 3])
+        items = []
+        sparse = n > 10 and rng.chance(2, 3)          # every gap and length random: nothing for deflate to find
+        for i in range(n):
+            ln = rng.choice([1, 7, 1000, (1 << 24) + 1, (1 << 24) + 3, (1 << 25) + 2, 10 ** 8 + 1, rng.range(1, 10 ** 7), rng.range(1, 10 ** 7)])
+            if n > 10:
+                ln = rng.range(1, 10 ** 7)
+            if pos + ln > 4294967295 - 10:
+                break
+            if bed:
+                back = rng.choice([0, 0, 0, 1, ln // 2]) if items else 0          # overlapping / nested long entries
+                s0 = max(items[-1][0], pos - back) if items else pos
+                items.append((s0, s0 + ln, ""))
+                pos = max(pos, s0 + ln)
+            else:
+                if value_mode == "int":
+                    bits = f32bits(float(rng.choice(INT_VALUES)))
+                elif value_mode == "dec":
+                    bits = f32bits(float(rng.range(1, 99999)) / 100.0)
+                else:
+                    while True:
+                        b = rng.below(1 << 32)
+                        if ((b >> 23) & 0xFF) != 0xFF:
+                            break
+                    bits = f"{b:08x}"
+                items.append((pos, pos + ln, bits))
+                pos += ln
+            pos += rng.range(1, 10 ** 7) if sparse else rng.choice([0, 1, rng.range(1, 10 ** 7), rng.range(1, 10 ** 7)])
+        if not items:
+            items = [(0, 5, "") if bed else (0, 5, f32bits(1.0))]
+        end = max(e for (_, e, _) in items)
+        sizes[nm] = min(4294967295, end + rng.choice([0, 5, 10 ** 6, 4294967295]))
+        data[nm] = items
+    return names, sizes, data, {"genome_scale"}
+
+
+def short_dest_case(rng, cid, bed, zoom_queries=False):
+    """a write to a destination whose `write` accepts only part of a large buffer (legal for any `Write`; sockets, pipes and
+    wrappers do it): sections and staged zoom levels of MORE than one BufWriter load (8 KiB), so the writer's own calls reach
+    the destination directly. Uncompressed, 1024 items per section, in-memory or temp-file staging, either pass mode."""
+    from vlib import CaseT
+    names = ["chrA", "chrB"]
+    sizes = {n: 40000 for n in names}
+    n_items = rng.range(1100, 2200)
+    if bed:
+        data = {n: [(i * 9, i * 9 + 5, "n%d\t%d" % (i, i % 1000)) for i in range(n_items + 37 * j)] for j, n in enumerate(names)}
+        body = bed_lines(names, sizes, data)
+    else:
+        data = {n: [(i * 9, i * 9 + 4, f32bits(float(1 + (i * 31 + j) % 17))) for i in range(n_items + 37 * j)] for j, n in enumerate(names)}
+        body = wig_lines(names, sizes, data)
+    o = {"compress": 0, "ips": 1024, "bs": 256, "zooms": "16,64", "pass": rng.choice([1, 2]), "inmem": rng.choice([0, 1]), "rt": rng.choice(["ct", "mt"]),
+         "threads": rng.choice([1, 2]), "chan": 100, "src": "iter", "sort": "all", "destmax": rng.choice([1000, 1500, 4096, 8191])}
+    if o["rt"] == "ct":
+        o["threads"] = 1
+    lines = [opt_line(o)] + body + [f"Q iv {n} 0 {sizes[n]}" for n in names] + [f"Q iv chrB 9000 9100"]
+    if zoom_queries:
+        lines += [f"Q zoom {n} 0 {sizes[n]} #{lv}" for lv in (0, 1) for n in names] + ["Q zoom chrB 9000 9500 #0"]
+    return CaseT(cid, "bed" if bed else "wig", [], lines, {"destination_accepts_short_writes", "multi_chrom", "multi_section", "nt", "bed" if bed else "wig"})
+
+
 def inject_zero_length_wig(rng, names, sizes, data, tags, ends_ok=False):
     """zero-length values (start = end: legal, accepted by the writer) in the middle of a chromosome, as its first and —
     the shape several end-of-chromosome paths depend on — as its LAST item. Positions 0 and the chromosome length are
